@@ -45,6 +45,18 @@ C08_SCENARIO(threadpool_run)
   pool.stop();
 }
 
+// teardown: the destructor (not an explicit stop()) has to join the workers before mutex_/notEmpty_/notFull_ go away
+C08_SCENARIO(threadpool_dtor_joins)
+{
+  {
+    ThreadPool pool("c08pool");
+    pool.start(2);
+    for (int i = 0; i < 50; ++i) pool.run(work);
+    sleep_ms(20);
+  }                                            // ~ThreadPool: if (running_) stop()
+  sleep_ms(30);
+}
+
 // F-11: runInThread evaluates `while (running_)` without the mutex; stop() stores it under the mutex
 C08_SCENARIO(threadpool_stop_vs_worker)
 {
